@@ -20,10 +20,10 @@ CHECK_DEADLOCK FALSE
 """
 
 
-def consts(universe, minpts, maxpts, off, emit, initall=True, points=False):
+def consts(universe, minpts, maxpts, off, emit, initall=True, points=False, curv=False):
     return (f"CONSTANTS\n U <- {universe}\n MinPts = {minpts}\n MaxPts = {maxpts}\n Off <- {off}\n "
             f"EmitOn = {'TRUE' if emit else 'FALSE'}\n InitAll = {'TRUE' if initall else 'FALSE'}\n "
-            f"WithPoints = {'TRUE' if points else 'FALSE'}\n")
+            f"WithPoints = {'TRUE' if points else 'FALSE'}\n WithCurv = {'TRUE' if curv else 'FALSE'}\n")
 
 
 def t1(ctx, universe, maxpts, off="Zero", timeout=1500):
@@ -39,9 +39,9 @@ def t1(ctx, universe, maxpts, off="Zero", timeout=1500):
     return res
 
 
-def emit(ctx, universe, maxpts, off="Zero", simulate=None, depth=None, timeout=1500, minpts=4, points=False):
+def emit(ctx, universe, maxpts, off="Zero", simulate=None, depth=None, timeout=1500, minpts=4, points=False, curv=False):
     res = tlc.run("MC_Convex3", CFG_EMIT + consts(universe, minpts, maxpts, off, True, initall=not simulate,
-                                                   points=points),
+                                                   points=points, curv=curv),
                   timeout=timeout, simulate=simulate, depth=depth, workers=4 if simulate else None)
     ctx.tlc(res, f"Convex3 emission U={universe} MaxPts={maxpts} Off={off}" + (f" simulate={simulate}" if simulate else ""))
     seen = {}
@@ -50,6 +50,8 @@ def emit(ctx, universe, maxpts, off="Zero", simulate=None, depth=None, timeout=1
         if "p" in fr:
             r["q"] = fr["p"]["q"]
             r["mem"] = fr["p"]["mem"]
+        if "c" in fr:
+            r["curv"] = fr["c"]
         seen.setdefault(json.dumps(r["v"]), r)
     return list(seen.values())
 
